@@ -29,7 +29,7 @@ theorem abs_retained_keys (ops : List IOp) :
       apply ih
       cases op with
       | subscribe c s => simp only [Abs.applyOp, Abs.subscribe]; split <;> exact h
-      | unsubscribe f c => simp only [Abs.applyOp, Abs.unsubscribe]; split <;> exact h
+      | unsubscribe f c => simp only [Abs.applyOp, Abs.unsubscribe]; (repeat' split) <;> exact h
       | inlineSubscribe id s => exact h
       | inlineUnsubscribe id f => exact h
       | retain t p fl =>
@@ -59,7 +59,7 @@ theorem abs_retained_noempty (ops : List IOp) (hret : ∀ t p fl, IOp.retain t p
       apply ih _ (fun t p fl hm => hr t p fl (List.mem_cons_of_mem _ hm))
       cases op with
       | subscribe c s => simp only [Abs.applyOp, Abs.subscribe]; split <;> exact h
-      | unsubscribe f c => simp only [Abs.applyOp, Abs.unsubscribe]; split <;> exact h
+      | unsubscribe f c => simp only [Abs.applyOp, Abs.unsubscribe]; (repeat' split) <;> exact h
       | inlineSubscribe id s => exact h
       | inlineUnsubscribe id f => exact h
       | retain t p fl =>
